@@ -35,6 +35,7 @@ type c03Exch struct {
 	inter    bool      // request was interleaved
 	reqOrig  uint64
 	answered string // basic | interleaved | dropped
+	delayed  bool   // the answer reached the client only while its next request was under way
 	server   int
 }
 
@@ -69,6 +70,7 @@ type c03Srv struct {
 	wrap   func(payload []byte, reqDg []byte) []byte
 	unwrap func(b []byte) ([]byte, bool)
 	oldest []byte // an old reply for stale replays
+	held   []byte // a reply delayed in the network: it arrives while the client's next request is under way
 }
 
 func (s *c03Srv) handle(srv *peer.NTPServer, dg []byte, from netip.AddrPort, rx time.Time) {
@@ -114,6 +116,14 @@ func (s *c03Srv) handle(srv *peer.NTPServer, dg []byte, from netip.AddrPort, rx 
 		}
 		srv.Send(from, b)
 	}
+	s.mu.Lock()
+	held := s.held
+	s.held = nil
+	s.mu.Unlock()
+	if held != nil {
+		// the delayed reply to an earlier request reaches the client now (at the socket it is listening on)
+		send(held)
+	}
 	if back > 0 {
 		time.Sleep(back / 2) // processing time inside the server (part of t2-t1)
 	}
@@ -126,7 +136,7 @@ func (s *c03Srv) handle(srv *peer.NTPServer, dg []byte, from netip.AddrPort, rx 
 	e.tx64 = e.trueTx64
 	fl.Transmit = e.tx64
 	e.answered = "basic"
-	if ref != nil && mode != "basic-only" && ref.trueTx64 != 0 {
+	if ref != nil && mode != "basic-only" && mode != "delayed-basic" && ref.trueTx64 != 0 {
 		fl.Origin, fl.Transmit = f.Receive, ref.trueTx64
 		e.answered = "interleaved"
 		e.tx64 = ref.trueTx64
@@ -136,6 +146,14 @@ func (s *c03Srv) handle(srv *peer.NTPServer, dg []byte, from netip.AddrPort, rx 
 		return
 	}
 	b := fl.Bytes()
+	if mode == "delayed" || mode == "delayed-basic" {
+		// delayed beyond the client's timeout: this call ends without an answer
+		e.delayed = true
+		s.mu.Lock()
+		s.held = b
+		s.mu.Unlock()
+		return
+	}
 	send(b)
 	if mode == "duplicate" {
 		send(b)
@@ -183,7 +201,7 @@ func init() {
 				}
 				mode := "normal"
 				if kind >= 2 {
-					mode = []string{"normal", "normal", "normal", "duplicate", "stale-first", "basic-only", "drop"}[rng.IntN(7)]
+					mode = []string{"normal", "normal", "normal", "duplicate", "stale-first", "basic-only", "drop", "normal", "delayed", "delayed-basic"}[rng.IntN(10)]
 				}
 				return cur, fwd, back, mode
 			}
@@ -310,7 +328,7 @@ func init() {
 						hist := append([]*c03Exch{}, all...)
 						allMu.Unlock()
 						desc := func(e *c03Exch) string {
-							return fmt.Sprintf("#%d srv%d theta=%v interleaved-req=%v answered=%s", e.idx, e.server, e.theta, e.inter, e.answered)
+							return fmt.Sprintf("#%d srv%d theta=%v interleaved-req=%v answered=%s delayed=%v", e.idx, e.server, e.theta, e.inter, e.answered, e.delayed)
 						}
 						var ds []string
 						for _, e := range exs {
@@ -491,6 +509,10 @@ func allDropped(exs []*c03Exch) bool {
 func allAnswers(exs []*c03Exch) string {
 	s := ""
 	for _, e := range exs {
+		if e.answered == "" { // still being handled when the call returned
+			s += "?"
+			continue
+		}
 		s += e.answered[:1]
 	}
 	return s
